@@ -5,7 +5,7 @@ from __future__ import annotations
 import ast
 
 from sa.report import AnalysisError
-from sa.srcmodel import unparse, walk_no_nested, dotted
+from sa.srcmodel import unparse, walk_no_nested, dotted, calls_in
 
 REORDER = {'sorted', 'reversed', 'set', 'frozenset'}
 KEEP = {'tuple', 'list', 'iter'}
@@ -408,3 +408,81 @@ def run_g16_g18(chk, repo):
                                   witness='two spaces that differ only in their TRANSITS(.., NODEPOT) counts compare equal')
     if n18 < 4:
         raise AnalysisError(f'G18: only {n18} lhs_/rhs_ locals found')
+
+
+def run_g19_g20(chk, repo):
+    """G19: the exclusions of _is_allowed that do not depend on the path (TRANSITS(0, NODEPOT) is the same model as changing the
+    absorption) are tested before the "no step taken yet: allowed" shortcut; G20: the name of a LET definition and the name
+    of an @reference go through the same case conversion"""
+    from sa.cfg import CFG
+    G19 = chk.rule('G19', '_is_allowed: `if not feat_previous: return True` is reached only after the unconditional exclusion of '
+                          'TRANSITS(0, NODEPOT)', floor=1)
+    am = repo.module('pharmpy.tools.modelsearch.algorithms')
+    f = am.functions.get('_is_allowed')
+    if f is None:
+        raise AnalysisError('_is_allowed not found')
+    cfg = CFG(f.node)
+    excl = [n for n in cfg.nodes.values() if n.kind == 'test' and n.ast is not None and isinstance(n.ast, ast.Compare)
+            and any(isinstance(t, ast.Tuple) and [getattr(e, 'value', None) for e in t.elts][:1] == ['TRANSITS']
+                    and 0 in [getattr(e, 'value', None) for e in t.elts] for t in ast.walk(n.ast))]
+    first = [n for n in cfg.nodes.values() if n.kind == 'test' and n.ast is not None and isinstance(n.ast, ast.UnaryOp)
+             and isinstance(n.ast.op, ast.Not) and isinstance(n.ast.operand, ast.Name) and 'prev' in n.ast.operand.id]
+    if not excl or not first:
+        raise AnalysisError(f'G19: exclusion test ({len(excl)}) / first-step shortcut ({len(first)}) of _is_allowed not found')
+    for t in first:
+        rets = [s_ for s_ in cfg.succ(t.id, ['true']) if cfg.nodes[s_].kind == 'return'
+                and isinstance(cfg.nodes[s_].ast.value, ast.Constant) and cfg.nodes[s_].ast.value.value is True]
+        for r in rets:
+            ok = any(cfg.dominates(e.id, r) for e in excl)
+            chk.instance(G19, f'_is_allowed: `if {unparse(t.ast)}: return True` comes after `{unparse(excl[0].ast)[:50]}`: {ok}')
+            if not ok:
+                chk.violation(G19, am.rel, f.name, f'if {unparse(t.ast)}: return True before {unparse(excl[0].ast)[:50]}',
+                              'as the first step of a path the excluded feature is accepted', line=t.line,
+                              witness='TRANSITS([0,1],*) in the search space: the stepwise algorithms generate the candidate '
+                                      'TRANSITS(0, NODEPOT) and its subtree')
+    G20 = chk.rule('G20', 'mfl: LET names and @references are spelled through the same case conversion', floor=2)
+    dm = repo.module('pharmpy.tools.mfl.statement.definition')
+    di = dm.classes.get('DefinitionInterpreter')
+    it = di.methods.get('interpret') if di else None
+    if it is None:
+        raise AnalysisError('DefinitionInterpreter.interpret not found')
+    CASE = ('upper', 'lower', 'casefold', 'title', 'capitalize')
+
+    def case_ops(e):
+        return sorted({c.func.attr for c in ast.walk(e) if isinstance(c, ast.Call) and isinstance(c.func, ast.Attribute)
+                       and c.func.attr in CASE})
+    let_calls = [c for c in calls_in(it.node) if dotted(c.func) == 'Let' and c.args]
+    if not let_calls:
+        raise AnalysisError('G20: Let(name, ..) not found in DefinitionInterpreter.interpret')
+    let_ops = case_ops(let_calls[0].args[0])
+    chk.instance(G20, f'LET name: {unparse(let_calls[0].args[0])[:40]} case conversion {let_ops}')
+    n = 0
+    for m in repo.modules.values():
+        if not m.name.startswith('pharmpy.tools.mfl.statement'):
+            continue
+        for g in m.functions.values():
+            if g.name != 'ref':
+                continue
+            from sa import reach
+            gcfg = CFG(g.node)
+            for nd in gcfg.nodes.values():
+                if nd.kind == 'return' and isinstance(nd.ast.value, ast.Call) and dotted(nd.ast.value.func) == 'Ref' \
+                        and nd.ast.value.args:
+                    n += 1
+                    # the name as it reaches Ref(..): conversions applied after reading it from the token
+                    a0 = nd.ast.value.args[0]
+                    ops = case_ops(a0)
+                    if isinstance(a0, ast.Name):
+                        for _d, v in (reach.values(gcfg, nd.id, a0.id) or []):
+                            ops = sorted(set(ops) | set(case_ops(v)))
+                    ok = ops == let_ops
+                    chk.instance(G20, f'{g.qualname}: Ref({unparse(a0)[:30]}) case conversion {ops} (LET: {let_ops}): {ok}')
+                    if not ok:
+                        chk.violation(G20, m.rel, g.qualname, unparse(nd.ast.value)[:60],
+                                      f'the reference is looked up as {ops or "written"} while the definition is stored as '
+                                      f'{let_ops or "written"}: a LET whose name is not all upper case is never found',
+                                      line=nd.line,
+                                      witness='LET(covs,[WGT,AGE]);COVARIATE?(CL,@covs,exp): the statement expands to no '
+                                              'feature and does not round-trip')
+    if n == 0:
+        raise AnalysisError('G20: no ref() interpreter method found')
